@@ -33,7 +33,10 @@ def check_world(ref, plants, mode, acc, key=None):
         queries.append(q)
         truths[QIDS[j]] = (truth, rev, l)
     w = dict(refs=[ref], queries=queries)
-    obs = driver.run_world(w, mode, keep_result=True)
+    def far_pairs(o):
+        return [(int(row.queryId), [p.queryShift for p in row.alignedPairs if abs(p.queryShift) > 200][:5])
+                for row in (o.result.rows if o.result is not None else [])]
+    obs = driver.run_world(w, mode, in_child=far_pairs)
     found = []
     case = dict(reference=[ref[0], ref[1], list(ref[2])], plants=[list(p) for p in plants], mode=mode)
     if obs.error:
@@ -59,11 +62,10 @@ def check_world(ref, plants, mode, acc, key=None):
             extra = [k for k, o in others if o['QryContigID'] == str(qid)]
             if extra:
                 found.append(('extra-record-in-other-file', 'query %d also in %s (mode %s)' % (qid, extra, mode), 'placement', sig))
-        if mode in ('best', 'separate') and obs.result is not None:
-            for row in obs.result.rows:
-                far = [p.queryShift for p in row.alignedPairs if abs(p.queryShift) > 200]
+        if mode in ('best', 'separate'):
+            for qid, far in (obs.extra or []):
                 if far:
-                    found.append(('pair-beyond-200bp-of-seed-diagonal', 'query %s shifts %s' % (row.queryId, far[:5]), 'placement', {}))
+                    found.append(('pair-beyond-200bp-of-seed-diagonal', 'query %s shifts %s' % (qid, far), 'placement', {}))
     if acc is not None:
         acc.evals += 1
         acc.transitions += 3 + sum(obs.map_calls)
